@@ -26,6 +26,18 @@ func (e *Enc) calleeKey(c *ssa.CallCommon) (string, *ssa.Function) {
 			return g.Pkg.Pkg.Path() + "." + g.Name(), nil
 		}
 	}
+	// call through a function-typed struct field: keyed by the field, pkg.(T).field
+	if u, ok := c.Value.(*ssa.UnOp); ok {
+		if fa, ok := u.X.(*ssa.FieldAddr); ok {
+			if pt, ok := fa.X.Type().Underlying().(*types.Pointer); ok {
+				if nt, ok := types.Unalias(pt.Elem()).(*types.Named); ok && nt.Obj().Pkg() != nil {
+					if stt, ok := nt.Underlying().(*types.Struct); ok {
+						return nt.Obj().Pkg().Path() + ".(" + nt.Obj().Name() + ")." + stt.Field(fa.Field).Name(), nil
+					}
+				}
+			}
+		}
+	}
 	// call through a value of a named function type: keyed by the type, pkg.(TypeName)
 	if _, isClosure := c.Value.(*ssa.MakeClosure); !isClosure {
 		if n, ok := types.Unalias(c.Value.Type()).(*types.Named); ok {
@@ -128,9 +140,9 @@ func (e *Enc) callCommon(c *ssa.CallCommon, site ssa.Instruction, st *State, def
 		}
 		return e.builtinCall(b, c, site, st)
 	}
-	if !deferred {
-		e.fireAssertAtCall(c, pos, st, true)
-	}
+	e.curDeferred = deferred
+	e.fireAssertAtCall(c, pos, st, true)
+	e.curDeferred = false
 	key, fn := e.calleeKey(c)
 	var args []*Val
 	if c.IsInvoke() {
@@ -168,6 +180,9 @@ func (e *Enc) callCommon(c *ssa.CallCommon, site ssa.Instruction, st *State, def
 		}
 	}
 	if !isPureExtern(key) {
+		for _, a := range args {
+			e.markPublished(a)
+		}
 		ws := e.callWrites(c)
 		e.havocRoots(st, ws, true)
 		na := e.declare(e.freshName("al_call"), "Int")
@@ -178,6 +193,7 @@ func (e *Enc) callCommon(c *ssa.CallCommon, site ssa.Instruction, st *State, def
 		}
 	}
 	if retT == nil || resT.Len() == 0 {
+		e.fireAssertAtCallAfter(c, pos, st, nil)
 		return &Val{T: resT}
 	}
 	r := e.freshVal("ret_"+sanitize(lastName(key)), retT, false)
@@ -300,6 +316,26 @@ func (e *Enc) applyContract(ctr *Contract, key string, fn *ssa.Function, c *ssa.
 		e.assumeHere(e.typeInvFormula(st, r))
 	}
 	e.recordRet(short, nth, r)
+	// named results of the callee are usable in its ensures
+	if rs := sig.Results(); rs.Len() > 0 && r != nil && len(r.L) > 0 {
+		for i := 0; i < rs.Len(); i++ {
+			n := rs.At(i).Name()
+			if fn != nil && fn.Signature.Results().Len() == rs.Len() && fn.Signature.Results().At(i).Name() != "" {
+				n = fn.Signature.Results().At(i).Name()
+			}
+			if n == "" || n == "_" {
+				continue
+			}
+			if _, clash := env[n]; clash {
+				continue
+			}
+			if rs.Len() == 1 {
+				env[n] = envEntry{V: r}
+			} else {
+				env[n] = envEntry{V: e.tupleElem(r, i)}
+			}
+		}
+	}
 	for _, en := range ctr.Ensures {
 		ctx := &specCtx{env: env, st: st, old: old, result: r, pkg: ctr.Pkg, resSig: sig.Results()}
 		f := e.evalBoolCtx(en, ctx)
@@ -346,23 +382,21 @@ func (e *Enc) havocDesignator(m Clause, env map[string]envEntry, st, old *State,
 			e.heapSet(st, a.HK, sStore(e.heapGet(st, a.HK), a.Idx, fresh))
 		}
 		if d.ghosts {
-			sfx := ":" + ghostOwnerKey(d.ptr.T)
 			for k, hk := range e.hkeys {
-				if strings.HasPrefix(k, typeKey(types.Typ[types.UnsafePointer])+"/ghost_") && strings.HasSuffix(k, sfx) {
+				if strings.HasPrefix(k, typeKey(types.Typ[types.UnsafePointer])+"/ghost_") {
 					fresh := e.declare(e.freshName("modg"), "Int")
 					e.heapSet(st, hk, sStore(e.heapGet(st, hk), []string{d.ptr.L[0], d.ptr.L[1]}, fresh))
 				}
 			}
 		}
-		// re-assume type invariants of the new content
-		nv := e.load(st, d.ptr, d.T)
-		_ = nv
 	case "row":
 		// all elements of a slice: replace the backing row
 		elemPtr := &Val{T: types.NewPointer(d.T), L: []string{d.slice.L[slRef], "0"}, Root: d.T}
 		for _, a := range e.accesses(elemPtr, d.T) {
 			fresh := e.declare(e.freshName("modrow"), arraySort(a.Leaf.Sort, 1+a.Leaf.Dims))
-			e.heapSet(st, a.HK, "(store "+e.heapGet(st, a.HK)+" "+d.slice.L[slRef]+" "+fresh+")")
+			// a nil slice has no cells: nothing is written through it
+			row := sIte("(= "+d.slice.L[slRef]+" 0)", sSel(e.heapGet(st, a.HK), d.slice.L[slRef]), fresh)
+			e.heapSet(st, a.HK, "(store "+e.heapGet(st, a.HK)+" "+d.slice.L[slRef]+" "+row+")")
 		}
 	case "map":
 		mt := d.T.Underlying().(*types.Map)
@@ -419,8 +453,11 @@ func (e *Enc) frameCheckRoot(root string, ref string, pos token.Pos, st *State) 
 }
 
 func (e *Enc) frameCheckRef(addr *Val, T types.Type, pos token.Pos, st *State) {
-	// allowed if the object was allocated by this call
+	// allowed if the object was allocated by this call (or there is no object: nil slice)
 	allowed := []string{"(> " + addr.L[0] + " alloc0)"}
+	if e.frameNilOK {
+		allowed = append(allowed, "(= "+addr.L[0]+" 0)")
+	}
 	env := e.paramEnv()
 	accs := e.accesses(addr, T)
 	for _, m := range e.ctr.Modifies {
@@ -502,7 +539,9 @@ func (e *Enc) frameCheckCall(callee *Contract, env map[string]envEntry, old *Sta
 			e.frameCheckRef(d.ptr, d.T, pos, old)
 		case "row":
 			p := &Val{T: types.NewPointer(d.T), L: []string{d.slice.L[slRef], d.slice.L[slOff]}, Root: d.T}
+			e.frameNilOK = true
 			e.frameCheckRef(p, d.T, pos, old)
+			e.frameNilOK = false
 		case "map":
 			e.frameCheckRoot(typeKey(d.T.Underlying()), d.ref, pos, old)
 		}
@@ -601,8 +640,23 @@ func (e *Enc) fireAt(kind, name string, before bool, pos token.Pos, st *State, e
 		if aa.SelKind != kind || aa.Before != before {
 			continue
 		}
-		if aa.Callee != "" && !matchCallee(aa.Callee, name) {
-			continue
+		if aa.Callee != "" {
+			// "Close!" selects explicit calls only, "Close~" deferred executions only
+			pat := aa.Callee
+			if strings.HasSuffix(pat, "!") {
+				if e.curDeferred {
+					continue
+				}
+				pat = strings.TrimSuffix(pat, "!")
+			} else if strings.HasSuffix(pat, "~") {
+				if !e.curDeferred {
+					continue
+				}
+				pat = strings.TrimSuffix(pat, "~")
+			}
+			if !matchCallee(pat, name) {
+				continue
+			}
 		}
 		cntKey := fmt.Sprintf("aa:%d", i)
 		e.ords[cntKey]++
@@ -622,8 +676,22 @@ func (e *Enc) fireAt(kind, name string, before bool, pos token.Pos, st *State, e
 		if ga.SelKind != kind || (kind != "entry" && ga.Before != before) {
 			continue
 		}
-		if ga.Callee != "" && !matchCallee(ga.Callee, name) {
-			continue
+		if ga.Callee != "" {
+			pat := ga.Callee
+			if strings.HasSuffix(pat, "!") {
+				if e.curDeferred {
+					continue
+				}
+				pat = strings.TrimSuffix(pat, "!")
+			} else if strings.HasSuffix(pat, "~") {
+				if !e.curDeferred {
+					continue
+				}
+				pat = strings.TrimSuffix(pat, "~")
+			}
+			if !matchCallee(pat, name) {
+				continue
+			}
 		}
 		cntKey := fmt.Sprintf("ga:%d:%s", i, when)
 		e.ords[cntKey]++
@@ -648,57 +716,206 @@ func (e *Enc) curInstrIndex() int {
 
 // ---------- locks (ghost held-set) ----------
 
+// ---------- locks: ghost lock state, guarded fields, lock invariants ----------
+
+// heldLoc: the lock state of a mutex is a ghost cell of the mutex object, one array per
+// static position of the mutex inside its object (so it survives re-loading the
+// owner pointer). Root "lockstate" is never havocked by calls: a callee is assumed
+// not to release the caller's locks.
+func (e *Enc) heldLoc(mu *Val) (*heapKey, []string) {
+	var pk strings.Builder
+	rootKey := "?"
+	if mu.Root != nil {
+		rootKey = typeKey(mu.Root)
+	}
+	for _, s := range mu.Path {
+		fmt.Fprintf(&pk, "/%d", s.Field)
+	}
+	k := "lockstate/" + rootKey + pk.String()
+	hk, ok := e.hkeys[k]
+	if !ok {
+		hk = &heapKey{Key: k, Root: "lockstate", Leaf: Leaf{Sort: "Bool"}, Sort: arraySort("Bool", 2)}
+		e.hkeys[k] = hk
+	}
+	return hk, []string{mu.L[0], mu.L[1]}
+}
+
+func (e *Enc) heldTerm(st *State, mu *Val) string {
+	hk, idx := e.heldLoc(mu)
+	return sSel(e.heapGet(st, hk), idx...)
+}
+
 func (e *Enc) lockOp(key string, c *ssa.CallCommon, args []*Val, pos token.Pos, st *State, retT types.Type) *Val {
 	mu := args[0]
-	name := lockName(c.Args[0])
-	gk := "held:" + name
+	hk, idx := e.heldLoc(mu)
 	switch {
 	case strings.HasSuffix(key, ".Lock") || strings.HasSuffix(key, ".RLock"):
-		e.onAcquire(name, mu, st, pos)
-		st.ghost[gk] = "true"
+		e.onAcquire(mu, st, pos)
+		e.heapSet(st, hk, sStore(e.heapGet(st, hk), idx, "true"))
+		if _, _, named, mf := ownerOfMutex(mu); named != "" {
+			st.ghost["b:anyheld:"+named+"."+mf] = "true"
+		}
 	case strings.HasSuffix(key, ".Unlock") || strings.HasSuffix(key, ".RUnlock"):
-		e.onRelease(name, mu, st, pos)
-		st.ghost[gk] = "false"
+		e.onRelease(mu, st, pos)
+		e.heapSet(st, hk, sStore(e.heapGet(st, hk), idx, "false"))
+		if _, _, named, mf := ownerOfMutex(mu); named != "" {
+			st.ghost["b:anyheld:"+named+"."+mf] = "false"
+		}
 	}
 	return &Val{T: c.Signature().Results()}
 }
 
-// lockName: a static designator for the mutex, e.g. "runner.refMu" or "s.loadedMu".
-func lockName(v ssa.Value) string {
-	switch a := v.(type) {
-	case *ssa.FieldAddr:
-		st := a.X.Type().Underlying().(*types.Pointer).Elem().Underlying().(*types.Struct)
-		return lockBase(a.X) + "." + st.Field(a.Field).Name()
+// ownerOfMutex: for a mutex reached as &obj.mu returns the owner pointer, its struct
+// type and the mutex field name.
+func ownerOfMutex(mu *Val) (owner *Val, st *types.Struct, named string, field string) {
+	if len(mu.Path) == 0 || mu.Root == nil {
+		return nil, nil, "", ""
 	}
-	return v.Name()
+	// walk the path from the root type
+	var cur types.Type = mu.Root
+	for i, s := range mu.Path {
+		stt, ok := cur.Underlying().(*types.Struct)
+		if !ok || s.Field < 0 || s.Field >= stt.NumFields() {
+			return nil, nil, "", ""
+		}
+		if i == len(mu.Path)-1 {
+			owner = &Val{T: types.NewPointer(cur), L: mu.L, Root: mu.Root, Path: append([]Step{}, mu.Path[:i]...)}
+			n := ""
+			if nt, ok := types.Unalias(cur).(*types.Named); ok && nt.Obj().Pkg() != nil {
+				n = nt.Obj().Pkg().Path() + "." + nt.Obj().Name()
+			}
+			return owner, stt, n, stt.Field(s.Field).Name()
+		}
+		cur = stt.Field(s.Field).Type()
+	}
+	return nil, nil, "", ""
 }
 
-func lockBase(v ssa.Value) string {
-	switch a := v.(type) {
-	case *ssa.Parameter:
-		return a.Name()
-	case *ssa.FreeVar:
-		return a.Name()
-	case *ssa.UnOp:
-		if al, ok := a.X.(*ssa.Alloc); ok {
-			return al.Comment
-		}
-		if fv, ok := a.X.(*ssa.FreeVar); ok {
-			return fv.Name()
-		}
-		if fa, ok := a.X.(*ssa.FieldAddr); ok {
-			return lockName(fa)
-		}
-	case *ssa.Phi:
-		return a.Comment
-	case *ssa.FieldAddr:
-		return lockName(a)
+// onAcquire: other goroutines may have changed what the mutex protects: forget the
+// guarded fields of the owner, then assume the lock invariant.
+func (e *Enc) onAcquire(mu *Val, st *State, pos token.Pos) {
+	owner, stt, named, mfield := ownerOfMutex(mu)
+	if owner == nil || named == "" {
+		return
 	}
-	return v.Name()
+	if e.allocRefs[owner.L[0]] && !e.published[owner.L[0]] {
+		return // the object is still private to this call: nobody else changed it
+	}
+	for i := 0; i < stt.NumFields(); i++ {
+		g := e.DB.Guards[named+"."+stt.Field(i).Name()]
+		if g == nil {
+			continue
+		}
+		mine := false
+		for _, m := range g.Mutexes {
+			if m == mfield {
+				mine = true
+			}
+		}
+		if !mine {
+			continue
+		}
+		ft := stt.Field(i).Type()
+		fp := &Val{T: types.NewPointer(ft), L: owner.L, Root: owner.Root, Path: append(append([]Step{}, owner.Path...), Step{Field: i})}
+		if mt, isMap := ft.Underlying().(*types.Map); isMap {
+			// the entries of the map change, the field keeps pointing to the same map
+			mv := e.load(st, fp, ft)
+			if mapKeyOK(mt) {
+				has, ln, vals := e.mapKeys(mt)
+				for _, hk := range append([]*heapKey{has, ln}, vals...) {
+					fresh := e.declare(e.freshName("lkmap"), arraySort(hk.Leaf.Sort, 1))
+					e.heapSet(st, hk, "(store "+e.heapGet(st, hk)+" "+mv.L[0]+" "+fresh+")")
+				}
+			}
+			continue
+		}
+		for _, a := range e.accesses(fp, ft) {
+			fresh := e.declare(e.freshName("lk_"+stt.Field(i).Name()), arraySort(a.Leaf.Sort, a.Leaf.Dims))
+			e.heapSet(st, a.HK, sStore(e.heapGet(st, a.HK), a.Idx, fresh))
+		}
+		nv := e.load(st, fp, ft) // re-assume type invariants of the new content
+		_ = nv
+	}
+	if li := e.DB.LockInvs[named+"."+mfield]; li != nil {
+		ctx := &specCtx{env: map[string]envEntry{"this": {V: owner}}, st: st, old: e.entry, pkg: li.Pkg}
+		e.assumeHere(e.evalBoolCtx(li.C, ctx))
+	}
 }
 
-func (e *Enc) onAcquire(name string, mu *Val, st *State, pos token.Pos) {}
-func (e *Enc) onRelease(name string, mu *Val, st *State, pos token.Pos) {}
+func (e *Enc) onRelease(mu *Val, st *State, pos token.Pos) {
+	owner, _, named, mfield := ownerOfMutex(mu)
+	if owner == nil || named == "" {
+		return
+	}
+	if li := e.DB.LockInvs[named+"."+mfield]; li != nil {
+		ctx := &specCtx{env: map[string]envEntry{"this": {V: owner}}, st: st, old: e.entry, pkg: li.Pkg}
+		e.oblige("lockinv", "", e.evalBoolCtx(li.C, ctx), pos, "lock invariant of "+named+"."+mfield+" holds at release: "+li.C.Src)
+	}
+}
+
+// guardCheck: an access to a guarded field needs one of its mutexes held (or the
+// object is fresh: allocated by this call and not yet published).
+func (e *Enc) guardCheck(fa *ssa.FieldAddr, base *Val, st *State, pos token.Pos, what string) {
+	if len(e.DB.Guards) == 0 || e.opts.Safe["noguard"] {
+		return
+	}
+	pt, ok := fa.X.Type().Underlying().(*types.Pointer)
+	if !ok {
+		return
+	}
+	nt, ok := types.Unalias(pt.Elem()).(*types.Named)
+	if !ok || nt.Obj().Pkg() == nil {
+		return
+	}
+	stt, ok := nt.Underlying().(*types.Struct)
+	if !ok {
+		return
+	}
+	fname := stt.Field(fa.Field).Name()
+	g := e.DB.Guards[nt.Obj().Pkg().Path()+"."+nt.Obj().Name()+"."+fname]
+	if g == nil {
+		return
+	}
+	alts := []string{"(> " + base.L[0] + " alloc0)"}
+	for _, m := range g.Mutexes {
+		if strings.HasPrefix(m, "(") {
+			// "(T).mu": the mutex of the (single) T instance, tracked per type
+			mm := strings.TrimPrefix(m, "(")
+			k := strings.Index(mm, ").")
+			if k > 0 {
+				gk := "b:anyheld:" + g.Pkg + "." + mm[:k] + "." + mm[k+2:]
+				if t, ok := st.ghost[gk]; ok {
+					alts = append(alts, t)
+				}
+			}
+			continue
+		}
+		for i := 0; i < stt.NumFields(); i++ {
+			if stt.Field(i).Name() == m {
+				mu := &Val{T: types.NewPointer(stt.Field(i).Type()), L: base.L, Root: base.Root, Path: append(append([]Step{}, base.Path...), Step{Field: i})}
+				if mu.Root == nil {
+					mu.Root = ptrRoot(pt.Elem())
+				}
+				alts = append(alts, e.heldTerm(st, mu))
+			}
+		}
+	}
+	e.oblige("guard", fmt.Sprintf("guard.%s.%d", fname, e.nextOrd("guard."+fname)), sOr(alts...), pos, what+" of "+nt.Obj().Name()+"."+fname+" needs "+strings.Join(g.Mutexes, " or ")+" held")
+}
+
+func (e *Enc) nextOrd(k string) int { e.ords[k]++; return e.ords[k] }
+
+// guardedMapOperand: the map operand of a map operation was loaded from a guarded field.
+func (e *Enc) guardMapOp(m ssa.Value, st *State, pos token.Pos, what string) {
+	if len(e.DB.Guards) == 0 {
+		return
+	}
+	if u, ok := m.(*ssa.UnOp); ok {
+		if fa, ok := u.X.(*ssa.FieldAddr); ok {
+			e.guardCheck(fa, e.val(fa.X), st, pos, what)
+		}
+	}
+}
 
 // ---------- postconditions, cover ----------
 
